@@ -217,6 +217,19 @@ TWINS = [
     ('force-rmul-override', 'C20', 'spatialvector.py', '    def __rmul(right, left):', '    def __rmul__(right, left):', 'R8', 'SpatialForce.__rmul__'),
     ('sv-ctor-share-list', 'C17', 'spatialvector.py', '            self.data = list(value.data)', '            self.data = value.data', 'R5', 'SpatialVector.__init__'),
     ('sv-ctor-nested', 'C20', 'spatialvector.py', '            self.data = list(value.data)', '            self.data = [value.A]', 'R8', 'SpatialVector.__init__'),
+    # ---- round e
+    ('uq-mul-binop-swapped', 'C12', 'quaternion.py', '            return right.__class__(left.binop(right, base.qqmul))', '            return right.__class__(right.binop(left, base.qqmul))', 'R7o', 'UnitQuaternion.__mul__'),
+    ('uq-div-binop-swapped', 'C02', 'quaternion.py', 'return UnitQuaternion(left.binop(right, lambda x, y: base.qqmul(x, base.conj(y))))', 'return UnitQuaternion(right.binop(left, lambda x, y: base.qqmul(x, base.conj(y))))', 'R7o', 'UnitQuaternion.__truediv__'),
+    ('pose-mul-homogeneous-vector', 'C08', 'super_pose.py', '            elif len(left) > 1 and base.isvector(right, left.N):', '            elif len(left) == 1 and left.isSE and base.isvector(right, left.N + 1):\n                return left.A @ base.getvector(right)\n            elif len(left) > 1 and base.isvector(right, left.N):', 'R6d', 'SMPose.__mul__'),
+    ('se2-ctor-transl2-fallthrough', 'C07', 'pose2d.py', "            elif len(x) == 2:\n                # SE2([x,y])\n                self.data = [tr.transl2(x)]", "            elif len(x) != 3:\n                # SE2([x,y])\n                self.data = [tr.transl2(x)]", 'R20', 'SE2.__init__'),
+    ('se3-ctor-transl-unguarded', 'C07', 'pose3d.py', '            elif base.isvector(x, 3):\n                # SE3( [x, y, z] )', '            elif not isinstance(x, np.ndarray) or x.ndim == 1:\n                # SE3( [x, y, z] )', 'R20', 'SE3.__init__'),
+    ('distance-zero-before-parallel', 'C19', 'geom3d.py', '        if l1 | l2:\n            # lines are parallel', '        if abs(l1 * l2) < 10*_eps:\n            l = 0\n        elif l1 | l2:\n            # lines are parallel', 'R23', 'distance'),
+    ('momentum-motion-transform', 'C20', 'spatialvector.py', '            if isinstance(right, SpatialM6):\n                return right.__class__([X @ x for x in right.data])', '            if isinstance(right, (SpatialM6, SpatialMomentum)):\n                return right.__class__([X @ x for x in right.data])', 'R16', 'SpatialVector.__rmul__'),
+    ('getunit-float-coercion', 'C16', 'base/argcheck.py', '            return [x * math.pi / 180 for x in v]', '            return np.asarray(v, dtype=float) * math.pi / 180', 'R11', 'getunit'),
+    ('getunit-astype-nocopy-inplace', 'C17', 'base/argcheck.py', '        if isinstance(v, np.ndarray) or isscalar(v):\n            return v * math.pi / 180', '        if isinstance(v, np.ndarray):\n            v = v.astype(float, copy=False)\n            v *= math.pi / 180\n            return v\n        elif isscalar(v):\n            return v * math.pi / 180', 'R9', 'getunit'),
+    ('pow-negative-transpose', 'C02', 'super_pose.py', "        return self.__class__([np.linalg.matrix_power(x, n) for x in self.data], check=False)", "        if n < 0:\n            return self.__class__([np.linalg.matrix_power(x.T, -n) for x in self.data], check=False)\n        return self.__class__([np.linalg.matrix_power(x, n) for x in self.data], check=False)", 'R15c', 'SMPose.__pow__'),
+    ('so-seq-matrix-einsum-transposed', 'C06', 'super_pose.py', 'return np.array([x.A @ y for x, y in zip(left, right.T)]).T', "return np.einsum('kij,ik->jk', np.array(left.A), right)", 'R16', 'SMPose.__mul__'),
+    ('twist3-exp-vector-theta-no-units', 'C09', 'twist.py', "        else:\n            theta = base.getunit(theta, units)\n\n        if base.isscalar(theta):\n            # theta is a scalar", "        elif base.isscalar(theta):\n            theta = base.getunit(theta, units)\n        else:\n            theta = base.getvector(theta)\n\n        if base.isscalar(theta):\n            # theta is a scalar", 'R10u', 'Twist3.exp'),
     ('distance-antiparallel', 'C19', 'geom3d.py', 'l1.v - l2.v * np.dot(l1.w, l2.w) / np.dot(l2.w, l2.w)', 'l1.v - l2.v * np.linalg.norm(l1.w) / np.linalg.norm(l2.w)', 'R23', 'distance'),
 ]
 
